@@ -249,6 +249,7 @@ func (p *parser) parsePrimary() Node {
 func (p *parser) parseConditionalExpression(node Node) Node {
 	var expr1, expr2 Node
 	for p.current.Is(Operator, "?") && p.err == nil {
+		question := p.current
 		p.next()
 
 		if !p.current.Is(Operator, ":") {
@@ -266,6 +267,7 @@ func (p *parser) parseConditionalExpression(node Node) Node {
 			Exp1: expr1,
 			Exp2: expr2,
 		}
+		node.SetLocation(question.Location)
 	}
 	return node
 }
